@@ -257,14 +257,14 @@ def _reduce_sqrt(p):
         for m in p.t:
             hit = None
             for v, e in m:
-                if v in SQRT and (e >= 2 or (e <= -2 and SQRT[v].is_monomial())):
+                if v in SQRT and (e >= 2 or (e <= -1 and SQRT[v].is_monomial())):
                     hit = (v, e)
                     break
             if hit:
                 v, e = hit
                 c = p.t[m]
                 rest = tuple((w, x) for w, x in m if w != v)
-                k, r = (e // 2, e % 2) if e > 0 else (-((-e) // 2), -((-e) % 2))
+                k, r = (e // 2, e % 2)          # python floor semantics: e = 2k + r, r in {0, 1}, also for e < 0
                 base = Poly({mmul(rest, ((v, r),) if r else ()): c})
                 rad = SQRT[v]
                 sub = base * (rad.pow(k) if k > 0 else rad.inv().pow(-k))
@@ -979,20 +979,48 @@ def sx_sqrt(x):
         if rn * rn == n and rd * rd == d:
             return SNum(Poly.const(Fraction(rn, rd)), False)
     p = x.p
-    # even-power monomials with a square coefficient: exact
+    outer = None
     if p.is_monomial():
+        # sqrt(c * prod v^e) = r * prod_{pos v} v^(e//2) * sqrt(t * prod v^(e%2)),  c = r^2 t with t a squarefree integer
         (m, cf), = p.t.items()
-        if cf > 0 and all(e % 2 == 0 for v, e in m) and all(VARS[v].info and VARS[v].info.get('pos') for v, e in m):
-            rn, rd = math.isqrt(cf.numerator), math.isqrt(cf.denominator)
-            if rn * rn == cf.numerator and rd * rd == cf.denominator:
-                return SNum(Poly({tuple((v, e // 2) for v, e in m): Fraction(rn, rd)}), False)
+        if cf > 0:
+            n = cf.numerator * cf.denominator          # sqrt(n/d) = sqrt(n d)/d
+            sq, t = _square_part(n)
+            r = Fraction(sq, cf.denominator)
+            om, im = [], []
+            for v, e in m:
+                if VARS[v].info and VARS[v].info.get('pos'):
+                    if e // 2:
+                        om.append((v, e // 2))
+                    if e % 2:
+                        im.append((v, 1))
+                else:
+                    im.append((v, e))
+            outer = Poly({tuple(om): r})
+            p = Poly({tuple(im): Fraction(t)})
+            if p.is_const() and p.cval() == 1:
+                return SNum(outer, False)
     v = mkvar(('sqrt', p.key()), None, 'R', 'sqrt', {'nonneg': True})
     if not v.defs:
         v.deps = tuple(p.vars())
         v.defs = [v.z >= 0, v.z * v.z == lower(p)]
         v.ev = lambda env, p=p: math.sqrt(max(p.evalf(env), 0.0))
         SQRT[v.id] = p
-    return SNum(Poly.var(v.id), False)
+    r = Poly.var(v.id)
+    if outer is not None:
+        r = r * outer
+    return SNum(r, False)
+
+
+def _square_part(n):
+    """n = s^2 * t with t squarefree -> (s, t)"""
+    s, t, d = 1, n, 2
+    while d * d <= t:
+        while t % (d * d) == 0:
+            t //= d * d
+            s *= d
+        d += 1
+    return s, t
 
 
 def sx_abs(x):
@@ -1048,6 +1076,27 @@ def _round_atom(kind, x):
                       z3.Implies(xz == k - z3.RealVal('1/2'), v.z % 2 == 0),
                       z3.Implies(xz == k + z3.RealVal('1/2'), v.z % 2 == 0)]
             v.ev = lambda env, p=p: int(rnp.round(p.evalf(env)))
+    c0 = CUR[0]
+    if c0 is not None:
+        # pin detection: if the path condition forces a single value, use the literal (keeps later phases closed rationals)
+        k = ('pin', v.id, len(c0.pc), len(c0.assumed))
+        st = c0.names.get(('pin', v.id))
+        if st is None or st[0] != (len(c0.pc), len(c0.assumed)):
+            c0.ensure([v.id])
+            c0.solver.set('timeout', 3000)
+            try:
+                r0, m = c0.model()
+                pinned = None
+                if r0 == 'sat':
+                    val = m.eval(v.z, model_completion=True).as_long()
+                    if c0.check(v.z != val) == 'unsat':
+                        pinned = val
+            finally:
+                c0.solver.set('timeout', TIMEOUT_MS[0])
+            st = ((len(c0.pc), len(c0.assumed)), pinned)
+            c0.names[('pin', v.id)] = st
+        if st[1] is not None:
+            return int(st[1])
     r = SNum(Poly.var(v.id), True)
     return r
 
